@@ -70,6 +70,10 @@ def run_job(job):
         e.huge_alloc_is_violation = job.get("huge_alloc_is_violation", False)
         e.entry_name = job["entry"]
         e.entry_args = list(job.get("args", []))
+        # per-query solver time-out scaled to the job's budget (a stuck floating-point query must not eat a short job);
+        # queries that time out end their path as "unknown" (counted, never success)
+        bud = job.get("budget") or 300
+        e.solver.set("timeout", int(min(60000, max(4000, bud * 400))))
         for k, v in job.get("engine_opts", {}).items():
             setattr(e, k, v)
         if job.get("stubs"):
